@@ -26,11 +26,14 @@ Definition step (s : st) (r : list Z) : option st :=
     (* routing: a datagram produced by connection [origin] is handed to that connection only *)
     let out := fld r 5 in
     let origin := fld r 8 in
-    if ((out =? 1) || (out =? 2)) && (0 <=? origin) && negb (fld r 6 =? origin) then None
+    (* a replayed Initial whose connection is gone legitimately opens a fresh attempt
+       (index 255: no pair identity); genuine and in-flight duplicates must reach their owner *)
+    let fresh_attempt := (out =? 2) && (fld r 6 =? 255) && ((fld r 9 =? 5) || (fld r 9 =? 6)) in
+    if ((out =? 1) || (out =? 2)) && (0 <=? origin) && negb (fld r 6 =? origin) && negb fresh_attempt then None
     else Some s
   else if tag r =? 11 then None
   else if tag r =? 4 then
-    if fld r 4 =? 3 then
+    if (fld r 4 =? 3) && negb (ridx r =? 255) then
       (* no reset, no transport error, no version mismatch caused by the attacker *)
       if (fld r 5 =? 4) && ((fld r 6 =? 42) || (fld r 6 =? 43) || (fld r 6 =? 41)) then Some s else None
     else Some s
